@@ -146,7 +146,10 @@ def provider_observations(thorough):
                     p.MessageID, p.AffectedSOPClassUID, p.AffectedSOPInstanceUID, p.Priority = 1, CT_STORAGE, "1.2.3.4", 2
                     data = bytes((5 * j + 1) % 253 for j in range(d))
                     p.DataSet = BytesIO(data)
-                    rec = rig.tap.send(p, 1)
+                    try:
+                        rec = rig.tap.send(p, 1)
+                    except Exception:  # noqa: BLE001   send_msg raised part-way: the peer is left with what was handed to the DUL
+                        rec = rig.tap.collect(1)
                     pdvs = [{"cmd": bool(h & 1), "last": bool(h & 2), "len": n} for _, h, n in rec["pdv"]]
                     got = rec["primitive"].DataSet.getvalue() if rec["primitive"] is not None else b""
                     out.append({"kind": "frag", "d": d, "max": peer, "backing": f"send_msg/{mode}/own={own}", "pdvs": pdvs,
